@@ -25,6 +25,10 @@ CHECKS = {
  'C20': ('exploration', 'runtime monitor: differential oracle inside the node driver (stream reader under prescribed Buffer chunkings vs bulk reader on the same bytes), exhaustive chunkings of small inputs and of multi-byte UTF-8 samples, real fs.createReadStream around the 64 KiB boundary',
          'Every chunking of every small input is fed to the real JS CSVRecordIterator through an instrumented Readable that logs the chunks it emitted, and compared with bulk reading; held on the chunkings observed.',
          'Trusted: the bulk reader as reference for the file content (tied to the Python reader by C18); stuck detection counts event-loop turns, not wall clock.', 'DESIGN.md#c20'),
+
+ 'C18': ('exploration', 'runtime monitor: differential oracle between the Python port (in-process) and the JS port (node driver) on exhaustive small lines / fields / files, cross round trips and generated common-syntax select lists',
+         'Both ports are executed on the same exhaustive small inputs and every observable (fields, warning flag, quoted form, records, header, warning multiset, error class, written bytes, output header) is compared; held on the inputs observed.',
+         'Differential only: defects shared by both ports are invisible here and are covered by the reference-model checks (C10-C12, C07).', 'DESIGN.md#c18'),
 }
 
 NOT_YET = 'check not registered yet (machinery under construction; see DESIGN.md section 3a build order)'
